@@ -1,8 +1,8 @@
 (* C05 - the function is only evaluated where the chosen method promises.  Statements only; proofs in
    Theory/PointsTheory.v about Model/Points.v, whose binary64 instance reproduces the recorded argument
    list of f (order, count, bits) for all five classes.  Over R, steps h_c >= 0 (C10), any dimension. *)
-From Coq Require Import Reals List String.
-Require Import NDT.Arith.Ops NDT.Arith.OpsR NDT.Model.Points NDT.Theory.PointsTheory.
+From Coq Require Import Reals List String ZArith Lia.
+Require Import NDT.Arith.Ops NDT.Arith.OpsR NDT.Model.Points NDT.Theory.PointsTheory NDT.Gen.Spec NDT.Theory.RuleTables.
 Import ListNotations.
 Open Scope R_scope.
 
@@ -48,3 +48,11 @@ Theorem C05_mirror_pair_symmetric x p q : mirror_pair eps tiny huge x p q ->
   Forall2 (fun xc pq => re4 (fst pq) + re4 (snd pq) = 2 * xc) x (combine p q).
 Proof. exact (mirror_pair_symmetric eps tiny huge x p q). Qed.
 End C05.
+
+(* which calls get the classic rule f(x + i h).imag ("the default first-derivative complex rule"): on the regenerated name
+   dispatch, method = 'complex' with n = 1 and every requested order below 4 (order 2 is the default; 1 and 3 round to it) *)
+Theorem C05_default_complex_rule_is_classic order : (1 <= order < 4)%Z -> diff_name Complex 1 order = "_complex"%string.
+Proof.
+  intros H. assert (E : order = 1%Z \/ order = 2%Z \/ order = 3%Z) by lia.
+  destruct E as [-> | [-> | ->]]; vm_compute; reflexivity.
+Qed.
